@@ -45,12 +45,27 @@ Lemma xf_spec (XF : gset positive) (ip iq y : nat) (p q n : positive) :
   n ∈ XF ∨ (n = p ∧ ip = y) ∨ (n = q ∧ iq = y).
 Proof. repeat case_decide; set_solver. Qed.
 
+Lemma size_remove (T : gset positive) u : u ∈ T → size T = S (size (T ∖ {[u]})).
+Proof.
+  intros Hu. rewrite size_difference by set_solver. rewrite size_singleton.
+  assert (size T ≠ 0); [|lia]. intros E. apply size_empty_inv in E. set_solver.
+Qed.
+(** rewriting an existing node does not use up room *)
+Lemma room_relabel s u t k (f : st → st) :
+  is_Some (succ s !! u) → succ (f s) = <[u := t]> (succ s) → max_nodes (f s) = max_nodes s →
+  room s k → room (f s) k.
+Proof.
+  intros Hu Es Em. unfold room. rewrite Em, Es. destruct (max_nodes s); [|done].
+  rewrite map_size_insert_Some by eauto. done.
+Qed.
+
 Section step.
 Context (s0 : st) (HI : Inv s0) (x : nat) (Hy : x + 1 < nvars s0).
 
 Lemma dep_step done s T L u v w G XF :
   Mid s0 x s T → Counts s L → u ∈ T → u ∉ done →
   succ s0 !! u = Some (Triple x v w) →
+  room s (2 * size T) →
   ∃ s' p q XF',
     dep_body x (x + 1) done (G, XF) (u, (v, w)) s =
       (Ok (G ∪ {[absn v]} ∪ {[absn w]}, XF'), s') ∧
@@ -59,9 +74,13 @@ Lemma dep_step done s T L u v w G XF :
     (∀ n, n ≠ u → is_Some (succ s !! n) → succ s' !! n = succ s !! n) ∧
     (∀ n, succ s !! n = None → is_Some (succ s' !! n) → n ∈ XF') ∧
     (∀ n, n ∈ XF' ↔ n ∈ XF ∨ (n = absn p ∧ lvl_of s' p = x + 1) ∨
-                             (n = absn q ∧ lvl_of s' q = x + 1)).
+                             (n = absn q ∧ lvl_of s' q = x + 1)) ∧
+    room s' (2 * size (T ∖ {[u]})).
 Proof.
-  intros HM HC HuT Hud Hu0.
+  intros HM HC HuT Hud Hu0 Hroom.
+  rewrite (size_remove T u HuT) in Hroom.
+  replace (2 * S (size (T ∖ {[u]}))) with (S (S (2 * size (T ∖ {[u]})))) in Hroom by lia.
+  set (K := 2 * size (T ∖ {[u]})) in *.
   destruct (dep_facts s0 HI x Hy u v w Hu0) as (Hu1&Hv&Hw&Hwp&Hne&Hlv&Hlw).
   destruct (m_T _ _ _ _ HM u HuT) as (t&Ht0&_&Hdep&Hus).
   assert (t = Triple x v w) as -> by congruence. clear Ht0. cbn [t_lo t_hi] in Hdep.
@@ -84,6 +103,7 @@ Proof.
   assert (HCa : CountsD sa L u)
     by exact (CountsD_of_Counts s L u (Triple x v w) HC Hus (proj1 Hv) (proj1 Hw)).
   assert (Hua : u ∈ dom (succ sa)) by (apply elem_of_dom; eauto).
+  assert (Hra : room sa (S (S K))) by (by apply (room_same s)).
   destruct (swap_cofactor_mid s0 HI x Hy sa T v HMa Hv Hlv) as (iv&v0&v1&Ev&Hiv&Hivy&Hcv).
   destruct (swap_cofactor_mid s0 HI x Hy sa T w HMa Hw Hlw) as (iw&w0&w1&Ew&Hiw&Hiwy&Hcw).
   rewrite (bind_ok _ _ _ _ _ Ev), (bind_ok _ _ _ _ _ Ew).
@@ -106,20 +126,24 @@ Proof.
   (* first node *)
   destruct (Mid_low s0 x Hy sa T _ HMa Hv0 Lv0) as (Va0&La0&_).
   destruct (Mid_low s0 x Hy sa T _ HMa Hw0 Lw0) as (Vaw0&Law0&_).
-  destruct (foa_mid s0 x sa T cv0 cw0 HMa Hy Va0 Vaw0 ltac:(lia) ltac:(lia))
-    as (p&sb&Ep&HMb&Hsubb&Hresp&Hnewb&_).
+  destruct (foa_mid s0 x sa T cv0 cw0 HMa Hy Va0 Vaw0 ltac:(lia) ltac:(lia)
+              (room_le sa (S (S K)) 1 ltac:(lia) Hra))
+    as (p&sb&Ep&HMb&Hsubb&Hresp&Hnewb&Hsb).
   pose proof (foa_mid_counts s0 x sa T L u cv0 cw0 p sb HI HMa Hy Va0 Vaw0
-                ltac:(lia) ltac:(lia) HCa Hua Ep) as HCb.
+                ltac:(lia) ltac:(lia) HCa Hua (room_le sa (S (S K)) 1 ltac:(lia) Hra) Ep) as HCb.
+  pose proof (foa_room sa (x + 1) cv0 cw0 (S K) sb Hra Hsb) as Hrb.
   rewrite (bind_ok _ _ _ _ _ Ep).
   (* second node *)
   destruct (Mid_low s0 x Hy sb T _ HMb Hv1 Lv1) as (Vb1&Lb1&_).
   destruct (Mid_low s0 x Hy sb T _ HMb Hw1 Lw1) as (Vbw1&Lbw1&_).
   assert (Hub : u ∈ dom (succ sb)).
   { apply elem_of_dom. exists (Triple x v w). by apply (lookup_weaken _ _ _ _ Hus Hsubb). }
-  destruct (foa_mid s0 x sb T cv1 cw1 HMb Hy Vb1 Vbw1 ltac:(lia) ltac:(lia))
-    as (q&sc&Eq&HMc&Hsubc&Hresq&Hnewc&_).
+  destruct (foa_mid s0 x sb T cv1 cw1 HMb Hy Vb1 Vbw1 ltac:(lia) ltac:(lia)
+              (room_le sb (S K) 1 ltac:(lia) Hrb))
+    as (q&sc&Eq&HMc&Hsubc&Hresq&Hnewc&Hsc).
   pose proof (foa_mid_counts s0 x sb T L u cv1 cw1 q sc HI HMb Hy Vb1 Vbw1
-                ltac:(lia) ltac:(lia) HCb Hub Eq) as HCc.
+                ltac:(lia) ltac:(lia) HCb Hub (room_le sb (S K) 1 ltac:(lia) Hrb) Eq) as HCc.
+  pose proof (foa_room sb (x + 1) cv1 cw1 K sc Hrb Hsc) as Hrc.
   rewrite (bind_ok _ _ _ _ _ Eq).
   assert (Hresp' : foa_res sc (x + 1) cv0 cw0 p).
   { apply (foa_res_mono sb sc); [|done]. intros n t Hn _. by apply (lookup_weaken _ _ _ _ Hn Hsubc). }
@@ -170,6 +194,8 @@ Proof.
       apply xf_spec. right. left. done.
     + destruct (Hnewc n Hb Hn') as [-> Hl]. apply xf_spec. right. right. done.
   - intros n. rewrite !Hlvl. apply xf_spec.
+  - apply (room_relabel sc u (Triple x p q) K
+             (fun s => bump q (bump p (set_node_st s u (Triple x p q))))); try done.
 Qed.
 End step.
 
@@ -185,6 +211,7 @@ Record DepInv (s0 : st) (x : nat) (L : positive → nat) (s : st)
      ∃ k t0 p q, succ s0 !! k = Some t0 ∧ t_lvl t0 = x ∧ k ∉ T ∧
        succ s !! k = Some (Triple x p q) ∧ (n = absn p ∨ n = absn q);
   di_new : ∀ n, succ s0 !! n = None → is_Some (succ s !! n) → n ∈ XF;
+  di_room : room s (2 * size T);
 }.
 
 Section fold.
@@ -203,7 +230,8 @@ Proof.
   intros HD HuT Hud Hu0.
   pose proof (di_mid _ _ _ _ _ _ _ HD) as HM.
   destruct (dep_step s0 HI x Hy done s T L u v w G XF HM (di_counts _ _ _ _ _ _ _ HD)
-              HuT Hud Hu0) as (s'&p&q&XF'&Hrun&HM'&HC'&Hsu&Hkeep&Hnew&HXF).
+              HuT Hud Hu0 (di_room _ _ _ _ _ _ _ HD))
+    as (s'&p&q&XF'&Hrun&HM'&HC'&Hsu&Hkeep&Hnew&HXF&Hroom').
   destruct (dep_facts s0 HI x Hy u v w Hu0) as (Hu1&Hv&Hw&Hwp&Hne&Hlv&Hlw).
   exists s', (G ∪ {[absn v]} ∪ {[absn w]}), XF'. split; [done|].
   assert (HuT' : u ∉ T ∖ {[u]}) by set_solver.
